@@ -22,6 +22,47 @@ Proof. exact ({chk}_all _ _ sweep). Qed.
 Print Assumptions {prop}_{m}.
 """
 
+# C05 clause (v): BusAddressToPak = the documented region table (Spec/MapSpec.v), its own sweep and file so that
+# it is an obligation of its own and runs beside the sweep of clauses (i)-(iv)
+REGION_V = """(* per-run instantiation: C05 clause (v) for the {m} mapper -- the regenerated BusAddressToPak equals the
+   documented region table of Spec/MapSpec.v on every 24-bit address; consequences: documented class and
+   linear position, documented mirrors *)
+From Coq Require Import Uint63.
+From Lib Require Import U63Ops Sweep.
+From Spec Require Import MapSpec.
+From Props Require Import MapSpecProps.
+From Gen Require Import GenMap_{m}.
+Local Open Scope uint63_scope.
+Lemma sweep : all24 (region_check {m}_BusAddressToPak table_{m}) = true.
+Proof. vm_cast_no_check (eq_refl true). Qed.
+Theorem C05_region_{m} : forall n : int, (n <? 16777216) = true ->
+  {m}_BusAddressToPak n = lookup table_{m} n.
+Proof. exact (region_all _ _ sweep). Qed.
+Theorem C05_class_pos_{m} : forall n : int, (n <? 16777216) = true ->
+  class_pos_prop {m}_BusAddressToPak table_{m} n.
+Proof. exact (class_pos_all _ _ _ C05_region_{m} table_{m}_spec). Qed.
+Theorem C05_mirrors_{m} : forall n : int, (n <? 16777216) = true ->
+  mirror_prop {m}_BusAddressToPak mirrors_{m} n.
+Proof. exact (mirrors_all _ _ _ C05_region_{m} table_{m}_spec). Qed.
+Print Assumptions C05_region_{m}.
+Print Assumptions C05_class_pos_{m}.
+Print Assumptions C05_mirrors_{m}.
+"""
+
+# diagnostic only (compiled when the sweep above is rejected): Coq's own first address off the table
+REGION_BAD_V = """From Coq Require Import Uint63.
+From Lib Require Import U63Ops Sweep.
+From Spec Require Import MapSpec.
+From Props Require Import MapSpecProps.
+From Gen Require Import GenMap_{m}.
+Definition first_bad := Eval vm_compute in
+  match region_first_bad {m}_BusAddressToPak table_{m} with
+  | Some n => Some (n, {m}_BusAddressToPak n, lookup table_{m} n)
+  | None => None
+  end.
+Print first_bad.
+"""
+
 DIG_V = """(* translator validation for the {m} mapper: digests of the regenerated functions, computed by
    vm_compute, against the digests the Go harness computed from the compiled functions *)
 From Coq Require Import Uint63 List.
@@ -41,6 +82,32 @@ Proof. split; reflexivity. Qed.
 """
 
 
+def region_sweep(m):
+    """C05 clause (v) for one mapper: static table facts fresh + the per-run sweep against the regenerated function."""
+    o = {"obl": [], "assumptions": [], "secs": 0.0}
+    rv = os.path.join(vlib.RUN, "C05_region_%s.v" % m)
+    vlib.write_if_changed(rv, REGION_V.format(m=m))
+    fresh = vlib.static_vo_fresh(rv)
+    o["obl"].append(("static: Spec/MapSpec.v, Props/MapSpecProps.v compiled and fresh (table_%s_spec: documented positions inside "
+                     "their class window + documented mirrors, swept over 2^24; table_%s_rows: rows disjoint; tests_%s_ok: every "
+                     "row of TestBusAddressToPak reproduced)" % (m, m, m), fresh, "" if fresh else "stale or missing .vo: run ./check --setup"))
+    rc, out, dt, cached = vlib.coqc(rv, timeout=1200)
+    detail = out
+    if rc != 0:
+        bv = os.path.join(vlib.RUN, "C05_region_bad_%s.v" % m)
+        vlib.write_if_changed(bv, REGION_BAD_V.format(m=m))
+        rc2, out2, _, _ = vlib.coqc(bv, timeout=1200)
+        mm = re.search(r"first_bad\s*=\s*(.*?)\s*:\s*option", out2, re.S)
+        detail = "Coq (find24): first address off the table, (n, generated b2p n, lookup table n) = %s\n%s" % (
+            " ".join(mm.group(1).split()) if mm else "?", out[-1500:])
+    o["obl"].append(("Theorem C05_region_%s : forall n < 2^24, %s_BusAddressToPak n = MapSpec.lookup table_%s n  (clause (v): class "
+                     "and linear position of the documented region table; + C05_class_pos_%s, C05_mirrors_%s; kernel sweep of 2^24 points, %.0fs%s)"
+                     % (m, m, m, m, m, dt, ", cached" if cached else ""), rc == 0, detail))
+    o["assumptions"] = vlib.parse_assumptions(out)
+    o["secs"] = dt
+    return o
+
+
 def per_mapper(prop, m, harness, gen_errs):
     r = {"m": m, "obl": [], "fails": [], "assumptions": []}
     chk = prop.lower()
@@ -54,11 +121,19 @@ def per_mapper(prop, m, harness, gen_errs):
         if rc == 0:
             pv = os.path.join(vlib.RUN, "%s_%s.v" % (prop, m))
             vlib.write_if_changed(pv, PROP_V.format(prop=prop, m=m, chk=chk))
-            rc, out, dt, cached = vlib.coqc(pv, timeout=1200)
+            jobs = [lambda: vlib.coqc(pv, timeout=1200)]
+            if prop == "C05":
+                jobs.append(lambda: region_sweep(m))
+            res = vlib.parallel(jobs)
+            rc, out, dt, cached = res[0]
             r["obl"].append(("Theorem %s_%s : forall n < 2^24, %s_prop n  (kernel sweep of 2^24 points, %.0fs%s)"
                              % (prop, m, chk, dt, ", cached" if cached else ""), rc == 0, out))
             r["assumptions"] = vlib.parse_assumptions(out)
             r["sweep_secs"] = dt
+            if prop == "C05":
+                r["obl"] += res[1]["obl"]
+                r["assumptions"] += res[1]["assumptions"]
+                r["region_secs"] = res[1]["secs"]
             # translator validation: digests over the whole domain
             tie, detail = False, "harness unavailable"
             if harness:
@@ -94,6 +169,12 @@ def run(ck, prop):
         "go/types and go/parser; Go compiler for the harness",
         "the statement of the clauses in coq/Props/MapProps.v (class windows, console-owned areas)",
     ]
+    if prop == "C05":
+        ck.trusted.append(
+            "the region tables of coq/Spec/MapSpec.v as the meaning of 'documented region table': transcribed from the comments of "
+            "mapping/*/mapping.go and the rows of the passing TestBusAddressToPak tables (not from a hardware manual); checked statically: "
+            "rows disjoint, positions inside their class window, all 198 test rows reproduced; a second, independently encoded "
+            "transcription lives in harness/maptool.go (falsifier clause C05.region_table)")
     errs = vlib.run_gen("mappers")
     harness, herr = vlib.build_harness()
     if harness is None:
@@ -101,6 +182,7 @@ def run(ck, prop):
     os.makedirs(vlib.RUN, exist_ok=True)
     results = vlib.parallel([(lambda m=m: per_mapper(prop, m, harness, errs)) for m in MAPPERS])
     npoints = 0
+    region_ok = True
     for r in results:
         m = r["m"]
         all_ok = True
@@ -122,8 +204,14 @@ def run(ck, prop):
                          {"mapper": m, "broken_obligations": broken})
         else:
             npoints += 1 << 24
-        ck.sample({"mapper": m, "theorem": "%s_%s" % (prop, m), "sweep_secs": r.get("sweep_secs"),
-                   "falsifier": (r.get("falsifier_out") or "").splitlines()[:7]})
+        smp = {"mapper": m, "theorem": "%s_%s" % (prop, m), "sweep_secs": r.get("sweep_secs"),
+               "falsifier": (r.get("falsifier_out") or "").splitlines()[:8]}
+        if prop == "C05":
+            smp["region_theorem"] = ("C05_region_%s : forall n, (n <? 16777216) = true -> %s_BusAddressToPak n = lookup table_%s n"
+                                     % (m, m, m))
+            smp["region_sweep_secs"] = r.get("region_secs")
+            region_ok = region_ok and any(n.startswith("Theorem C05_region_") and ok for (n, ok, _) in r["obl"])
+        ck.sample(smp)
     bad = vlib.foreign_assumptions(ck.assumptions)
     ck.oblige("Print Assumptions lists only Uint63 primitives and the standard library's axioms for them", not bad, "unexpected: %s" % bad)
     ck.cov.update({
@@ -135,6 +223,17 @@ def run(ck, prop):
         "traces_validated_against_impl": 8 * (1 << 24) if all(r.get("translated") for r in results) else 0,
         "modelled": "mapping/{lorom,hirom,exhirom,sa1rom}/mapping.go and mapping/util/mapping.go, regenerated from source on this run",
     })
+    if prop == "C05":
+        ck.cov.update({
+            "clauses": ["(i) image/class windows", "(ii) rejected pak window", "(iii) console-owned areas", "(iv) 8 KiB page structure",
+                        "(v) class and linear position = documented region table (Spec/MapSpec.v), with the documented mirrors"],
+            "region_table_clause_discharged": region_ok,
+            "rule": "every 24-bit address, per mapper, enumerated inside the Coq kernel twice: once for clauses (i)-(iv) (c05_check) and once "
+                    "for clause (v) (region_check: generated BusAddressToPak = MapSpec.lookup); a point is counted when BOTH theorems of its "
+                    "mapper were accepted; all points are distinct",
+            "checker_cmd": "coqc -Q coq/Lib Lib -Q coq/Props Props -Q coq/Spec Spec -Q build/work/Gen Gen build/work/Run/C05_<mapper>.v ; "
+                           "... build/work/Run/C05_region_<mapper>.v",
+        })
 
 
 def run_c04(ck):
